@@ -22,7 +22,7 @@ pub fn sources_of(printed: &[PrintedModule]) -> Sources {
 }
 
 /// Flags that always exclude a program from reference-based checks (unspecified or open findings).
-pub const EXCLUDED_FLAGS: [&str; 9] = [
+pub const EXCLUDED_FLAGS: [&str; 8] = [
     "dup-range-key",
     "same-status-different-headers-or-description",
     "dup-property-name",
@@ -31,7 +31,6 @@ pub const EXCLUDED_FLAGS: [&str; 9] = [
     "dup-path-variable",
     "dup-method-in-relation",
     "dup-path",
-    "dup-operation-id",
 ];
 
 /// Generates a G-wt program whose reference semantics is defined and unflagged (rejection sampling).
